@@ -289,12 +289,13 @@ def impl(w, x, pats=None, is_case=None, is_re=None, filt=None, trace=None):
     if trace is not None and fn in PIPE_FNS:
         import importlib
         mod = importlib.import_module("spydrnet.util." + PIPE_FNS[fn][0])
-        saved = mod.lookup
+        lname = "lookup_all" if hasattr(mod, "lookup_all") else "lookup"   # name before / after the repair
+        saved = getattr(mod, lname)
 
         def spy(parent, et, key, value):
             trace.append(parent)
             return saved(parent, et, key, value)
-        mod.lookup = spy
+        setattr(mod, lname, spy)
     try:
         res = list(f(obj, **kw))
         return ("ok", [w.oid(e) for e in res])
@@ -302,7 +303,7 @@ def impl(w, x, pats=None, is_case=None, is_re=None, filt=None, trace=None):
         return ("raise", exc_family(e))
     finally:
         if mod is not None:
-            mod.lookup = saved
+            setattr(mod, lname, saved)
 
 
 class FastLookup:
